@@ -31,6 +31,9 @@ enum Item {
     Value(String),
 }
 
+/// the documented number forms (`ParsedArg::is_negative_number`: integers, `1.`, `1.2`, `1.2e10`) and plain words
+const NUMBER_VALUES: &[&str] = &["-1", "-42", "-0", "-1.", "-5.", "-12.", "-1.2", "-1.2e10", "-3E5", "plain", "v", "7"];
+
 const HOSTILE_VALUES: &[&str] = &["-x", "-ax", "-xa", "--unknown", "--unk=1", "-", "-9", "-1.5", "plain", "-=", "-aZ", "--al", "v"];
 
 fn spell_flags(t: &mut Tape<'_>, spec: &CmdSpec, run: &[usize], out: &mut Vec<String>) {
@@ -75,7 +78,9 @@ impl Property for HyphenLines {
          undefined short, unknown long, unknown long with =value, `-`, negative numbers) and plain words x two spellings (each flag \
          by long / long alias / short / short alias; runs of flags as one cluster or separately). Reference: before the positional \
          has a value a token is a flag iff it is a known long (or alias), or a cluster made only of known shorts (or short aliases); \
-         anything else is the positional's value; once a multi-value positional collects, every token is a value. Oracle: both \
+         anything else is the positional's value; once a multi-value positional collects, every token is a value. One case in four: \
+         the positional has allow_negative_numbers(true) instead and the values are negative numbers in the documented forms \
+         (`-1`, `-5.`, `-1.2`, `-1.2e10`) or plain words. Oracle: both \
          spellings are accepted, set exactly the intended flags (counts included) and give the positional exactly the written \
          values. non-trivial = the line holds a flag-looking value and a flag spelled through an alias or inside a cluster; \
          distinct = distinct (spec, both argv)"
@@ -87,6 +92,9 @@ impl Property for HyphenLines {
     fn decode(&self, t: &mut Tape<'_>) -> HyphCase {
         let mut spec = CmdSpec { name: "prog".to_owned(), term_width: Some(80), ..Default::default() };
         let multi = t.bool();
+        // one case in four: the positional accepts negative numbers (and nothing else that starts with a dash)
+        let numbers = t.chance(1, 4);
+        let pool: &[&str] = if numbers { NUMBER_VALUES } else { HOSTILE_VALUES };
         let longs = ["alpha", "beta", "gamma", "delta"];
         let shorts = ['a', 'b', 'c', 'd'];
         let long_al = ["first", "second", "third", "fourth"];
@@ -113,7 +121,8 @@ impl Property for HyphenLines {
         }
         spec.args.push(ArgSpec {
             id: "input".to_owned(),
-            allow_hyphen_values: true,
+            allow_hyphen_values: !numbers,
+            allow_negative_numbers: numbers,
             num_args: Some(if multi { (1, usize::MAX) } else { (1, 1) }),
             ..Default::default()
         });
@@ -134,12 +143,12 @@ impl Property for HyphenLines {
         let mut values = Vec::new();
         if multi {
             for _ in 0..t.range(0, 3) {
-                let v = (*t.pick(HOSTILE_VALUES)).to_owned();
+                let v = (*t.pick(pool)).to_owned();
                 values.push(v.clone());
                 items.push(Item::Value(v));
             }
         } else if t.chance(2, 3) {
-            let v = (*t.pick(HOSTILE_VALUES)).to_owned();
+            let v = (*t.pick(pool)).to_owned();
             values.push(v.clone());
             items.push(Item::Value(v));
             for _ in 0..t.range(0, 2) {
